@@ -313,7 +313,7 @@ fn stage_doc(i: &Input, c: &mut Case) -> Result<(), String> {
 fn stage_big(i: &Input, c: &mut Case) -> Result<(), String> {
     let mut t = Tape::new(i.tape());
     crate::dynspec::set_current(crate::gen::rich());
-    let big_len = 65_000 + t.below(80_000);
+    let big_len = if t.chance(1, 12) { (1 << 20) + t.below(1 << 21) } else { 65_000 + t.below(80_000) };
     let blob = Node::leaf(0xa3, Payload::B(t.filler(big_len)));
     let small = |t: &mut Tape| {
         let n = 1 + t.below(40);
@@ -361,6 +361,12 @@ fn stage_big(i: &Input, c: &mut Case) -> Result<(), String> {
             }
         }
     }
+    if big_len > 1 << 20 {
+        for d in [-1i64, 0, 1, 2, 1000] {
+            cuts.push((big.header_end as i64 + (1 << 20) + d) as usize);
+        }
+        cuts.push(big.payload_end - 2);
+    }
     for _ in 0..6 {
         cuts.push(t.below(len + 1));
     }
@@ -397,6 +403,7 @@ fn stage_big(i: &Input, c: &mut Case) -> Result<(), String> {
     c.units = cuts.len() as u64;
     c.nontrivial_units = inside_big;
     c.label_n("cut_beyond_64k_of_available_payload", inside_big);
+    c.label_if(big_len > 1 << 20, "payload_beyond_1MiB");
     c.key(&(big_len, &cuts, cap, chunk));
     Ok(())
 }
